@@ -121,7 +121,7 @@ def run_one(ctx, cfg, ranks, tag):
 def run(ctx):
     import concurrent.futures
     srcs = [os.path.join(vlib.HARNESS, "hrun.c")] + ctx.core_sources(mpi=True)
-    if not ctx.cc("hrun_mpi", srcs, mpi=True):
+    if not ctx.cc("hrun_mpi", srcs, mpi=True, extra=["-Wl,--wrap=stats_take"]):
         return
     rnd = random.Random(ctx.seed * 911 + 3)
     jobs = []
